@@ -376,6 +376,10 @@ class PrettyPrinter:
         if isinstance(value, bool):
             return str(value).upper()
 
+        if "allOf" in attr_props and len(attr_props["allOf"]) == 1:
+            # a single item allOf is used in the schemas to add metadata to a $ref
+            attr_props = attr_props["allOf"][0]
+
         if any(i in ["enum"] for i in attr_props):
             if isinstance(value, dict) and not value:
                 raise ValueError(
